@@ -7,6 +7,7 @@ import (
 	"bufio"
 	"fmt"
 	"os"
+	"os/exec"
 	"strings"
 
 	"verifharness/common"
@@ -61,6 +62,24 @@ func emitAdd(h *harness, out *common.Out, c addCase) {
 	if res != "" {
 		out.Line("C11 %s => %s", c.inputTokens(), res)
 	}
+}
+
+// crashProbe (not part of the check): how often does `POST /add?hash=sha3-512&progress=true` kill the
+// process?  Each round is a child process that is sent the request 10 times.
+func crashProbe() {
+	self, _ := os.Executable()
+	line := strings.Repeat("add cr=0 au=n mp=ok q=hash:v.sha3-512;progress:v.true md=- rpc=ok\n", 10)
+	died := 0
+	rounds := 20
+	for i := 0; i < rounds; i++ {
+		cmd := exec.Command(self, "-suite", "add", "-stdin", "1")
+		cmd.Stdin = strings.NewReader(line)
+		cmd.Env = append(os.Environ(), "GOLOG_LOG_LEVEL=fatal")
+		if err := cmd.Run(); err != nil {
+			died++
+		}
+	}
+	fmt.Printf("# crashprobe: %d of %d child processes died\n", died, rounds)
 }
 
 var theClients *clients
@@ -120,6 +139,10 @@ func main() {
 	}
 	out := common.NewOut()
 	defer out.Flush()
+	if suite == "crashprobe" {
+		crashProbe()
+		return
+	}
 	h := newHarness()
 
 	if args.Extra["stdin"] == "1" {
